@@ -53,7 +53,9 @@ def subclass_dunders(ctx):
             ok, msg = False, "%s.%s raises for an operand of its own class and equal shape" % (cname, st.name)
             if kind == "return" and node is not None:
                 try:
-                    got = _term(node, cname, o, A, B)
+                    from . import roles
+
+                    got = _term(roles.inline(node, roles.Defs(st)), cname, o, A, B)
                     ok, msg = got == want, "%s.%s builds %r, the expression denotes %r" % (cname, st.name, got, want)
                 except AnalysisError as e:
                     ok, msg = False, str(e)
